@@ -79,14 +79,20 @@ mod imp {
         c
     }
 
-    pub fn pos<T, I>(mk: impl Fn() -> I) -> Vec<Cell>
+    /// `mk` is the source as the other groups use it (for the option view: `&OptIter`, whose IntoIterator is its own
+    /// code path, seed C11-5); only vlast needs the double-ended form `mkde`
+    pub fn pos<T, I, J>(mk: impl Fn() -> J, mkde: impl Fn() -> I) -> Vec<Cell>
     where
+        J: IntoIterator<Item = T>,
         I: IntoIterator<Item = T>,
         I::IntoIter: DoubleEndedIterator,
         T: IsNone + ToCell,
         T::Inner: Number,
     {
-        vec![mk().vfirst().cell(), mk().vlast().cell(), mk().vargmin().cell(), mk().vargmax().cell()]
+        // the forward-only results through both forms must agree (an Err cell otherwise)
+        let both = |a: Cell, b: Cell| if format!("{:?}", a) == format!("{:?}", b) { a } else { Cell::Err };
+        vec![both(mk().vfirst().cell(), mkde().vfirst().cell()), mkde().vlast().cell(),
+             both(mk().vargmin().cell(), mkde().vargmin().cell()), both(mk().vargmax().cell(), mkde().vargmax().cell())]
     }
 
     pub fn mom<T, I>(mk: impl Fn() -> I, maxmp: usize) -> Vec<Cell>
@@ -376,7 +382,7 @@ macro_rules! valid_groups {
         }
         if $groups & 2 != 0 {
             $em.case("custom:exact", &tg("pos"), &ds("pos", POS_LAYOUT),
-                || pack(format!("(pos_{} {})", $kind, $coq)), || run(|| imp::pos($mkde)));
+                || pack(format!("(pos_{} {})", $kind, $coq)), || run(|| imp::pos($mk, $mkde)));
         }
         if $groups & 4 != 0 {
             $em.case("custom:float:1e-9", &tg("mom"), &ds("mom", MOM_LAYOUT),
@@ -426,6 +432,11 @@ fn single_series(em: &mut Emitter, rng: &mut Rng, s: &Series, full: bool) {
         let b = Array1::from_vec(rev);
         let bv = b.slice(tevec::export::ndarray::s![..;-1]);
         valid_groups!(em, "f", "f64", "ndarray_rev", s, cf, &vals_f, vals_f_coq, shown, || bv.titer(), || bv.titer(), all);
+        // the option view of the reversed view, consumed through `&OptIter: IntoIterator` (seed C11-5: a slice fast path
+        // there + memory-order slices of ndarray views = the elements in reverse order)
+        let ob = bv.opt();
+        let vals_o: Vec<Option<f64>> = vals_f.iter().map(|x| if x.is_nan() { None } else { Some(*x) }).collect();
+        valid_groups!(em, "f", "f64", "ndarray_rev_opt", s, cf, &vals_o, vals_f_coq, shown, || &ob, || ob.titer(), all);
     }
     if pick(rng) {
         valid_groups!(em, "f", "f64", "stditer", s, cf, &vals_f, vals_f_coq, shown,
@@ -590,6 +601,16 @@ fn two_series(em: &mut Emitter, rng: &mut Rng, a: &Series, b: &Series, full: boo
         let (va, vb) = (xa.opt(), xb.opt());
         em.case("custom:float:1e-9", &tg("cov", "f64,f64", "opt"), &ds("cov", "f64,f64", "opt"),
             || sweep(maxmp, &format!("cov_ff mp {} {}", ca, cb)), || run(|| imp::cov(|| &va, || &vb, maxmp)));
+        // first series = option view of a reversed ndarray view, partner in plain order
+        let mut ra: Vec<f64> = xa.clone();
+        ra.reverse();
+        let arr = tevec::export::ndarray::Array1::from_vec(ra);
+        let rv = arr.slice(tevec::export::ndarray::s![..;-1]);
+        let orv = rv.opt();
+        em.case("custom:float:1e-9", &tg("cov", "f64,f64", "ndarray_rev_opt"), &ds("cov", "f64,f64", "ndarray_rev_opt"),
+            || sweep(maxmp, &format!("cov_ff mp {} {}", ca, cb)), || run(|| imp::cov(|| &orv, || &vb, maxmp)));
+        em.case("custom:float:1e-7", &tg("corr", "f64,f64", "ndarray_rev_opt"), &ds("corr", "f64,f64", "ndarray_rev_opt"),
+            || sweep(maxmp, &format!("corr_ff mp {} {}", cb, ca)), || run(|| imp::corr(|| &vb, || &orv, maxmp)));
     }
     // integers
     if a.is_int() && b.is_int() {
@@ -794,7 +815,7 @@ fn main() {
                 em.case("custom:exact", &tg("sym", "f64", "vec"), &ds("sym", "f64", "vec", SYM_LAYOUT),
                     || pack(format!("(sym_f {} {})", vals_f_coq, cf)), || run(|| imp::sym(|| xf.clone(), &vals_f)));
                 em.case("custom:exact", &tg("pos", "f64", "titer"), &ds("pos", "f64", "titer", POS_LAYOUT),
-                    || pack(format!("(pos_f {})", cf)), || run(|| imp::pos(|| xf.titer())));
+                    || pack(format!("(pos_f {})", cf)), || run(|| imp::pos(|| xf.titer(), || xf.titer())));
                 // the option view and the Option<f64> encoding of the same logical series
                 let o = xf.opt();
                 let vals_o: Vec<Option<f64>> = vals_f.iter().map(|x| if x.is_nan() { None } else { Some(*x) }).collect();
@@ -806,12 +827,12 @@ fn main() {
                 em.case("custom:exact", &tg("sym", "optf64", "vec"), &ds("sym", "optf64", "vec", SYM_LAYOUT),
                     || pack(format!("(sym_o {} {})", vals_o_coq, co)), || run(|| imp::sym(|| xo.clone(), &vals_o)));
                 em.case("custom:exact", &tg("pos", "optf64", "titer"), &ds("pos", "optf64", "titer", POS_LAYOUT),
-                    || pack(format!("(pos_o {})", co)), || run(|| imp::pos(|| xo.titer())));
+                    || pack(format!("(pos_o {})", co)), || run(|| imp::pos(|| xo.titer(), || xo.titer())));
                 if len <= 2 || rng.chance(1, 4) {
                     let x32: Vec<f32> = xf.iter().map(|x| if *x == f64::MAX { f32::MAX } else if *x == f64::MIN { f32::MIN } else { *x as f32 }).collect();
                     let c32 = coq_f(&x32.iter().map(|x| *x as f64).collect::<Vec<f64>>());
                     em.case("custom:exact", &tg("pos", "f32", "titer"), &ds("pos", "f32", "titer", POS_LAYOUT),
-                        || pack(format!("(pos_f {})", c32)), || run(|| imp::pos(|| x32.titer())));
+                        || pack(format!("(pos_f {})", c32)), || run(|| imp::pos(|| x32.titer(), || x32.titer())));
                 }
             }
         }
